@@ -15,7 +15,7 @@ vars == <<input, pc, k, table, expect>>
 
 InitGen == /\ input \in Inputs /\ pc = "gen" /\ k = 0 /\ table = <<>> /\ expect = <<>>
 Gen == /\ pc = "gen" /\ pc' = "done"
-       /\ expect' = UnExpected(input, SpInfo[input.st], ObInfo[input.ot], Base)
+       /\ expect' = UnExpected(input, SpInfo[input.st], ObInfo[input.ot], Base, 1000)
        /\ UNCHANGED <<input, k, table>>
 SpecGen == InitGen /\ [][Gen]_vars
 L1EqualsL0 == (pc = "done" /\ WithL0) =>
@@ -46,5 +46,5 @@ CellInv == (k < Len(input.ot)) =>
       T1 == UnTable(input, I, F, LcaMap(input.ot, OI, I, input.lm), Base, FALSE)
       u == k + 1
   IN \A q \in DOMAIN T1[u] :
-       T1[u][q] = table[u][q[1]][IF q[2] = F.req[u] THEN "LCA" ELSE "INH"]
+       T1[u][q].v = table[u][q[1]][IF q[2] = F.req[u] THEN "LCA" ELSE "INH"]
 =============================================================================
